@@ -375,6 +375,7 @@ Definition apply_rewrite (r : rewrite) (p : program) : program :=
   end.
 
 Definition applicable (r : rewrite) (p : program) : bool :=
+  nodup_nids p &&
   match r with
   | RSwap s => exists_unit (fun u => swap_ok_ubody s (u_body u)) p
   | RUseItems s => valid_b (apply_rewrite r p)
